@@ -52,6 +52,8 @@ class DocBuilder:
        foreign_formal probability that a record also carries a PROV formal attribute of another kind
        refused    probability (per document) that the history goes on with edits the library refuses (a second, different value
                   for a formal attribute of an existing record); the caller catches the error and carries on
+       builtin_names probability (per value) of a qualified-name value in the XML Schema namespace
+       resplit    probability that a reference is an existing name cut differently into namespace and local part (same URI)
        reinstant  probability that a time repeats the instant of an earlier zone-aware one in another zone
        reclock    probability that a time repeats the clock reading of an earlier one under another UTC offset
        twins      probability (per attribute) of repeating an earlier URI-valued attribute with the other kind of value
@@ -64,7 +66,7 @@ class DocBuilder:
         self.w = w
         self.o = dict(clash=0.2, foreign=0.15, value_kinds=None, repeat_id=0.2, malformed=0.05,
                       paths=("new_record", "factory", "conv"), defaults=0.3, bare=True, fulluri=True,
-                      multi=0.2, anon=0.5, dup_formal=0.06, xml=False, subtypes=0.0, plain_binary=0.0, twins=0.0, redefault=0.0, reclock=0.0, foreign_formal=0.0, refused=0.0, reinstant=0.0,
+                      multi=0.2, anon=0.5, dup_formal=0.06, xml=False, subtypes=0.0, plain_binary=0.0, twins=0.0, redefault=0.0, reclock=0.0, foreign_formal=0.0, refused=0.0, reinstant=0.0, resplit=0.0, builtin_names=0.0,
                       free_bundle=float(__import__("os").environ.get("VERIF_FREE_BUNDLE", "0.15")))
         self.o.update(opts)
         self.ids = {}        # scope -> list of identifiers used (QualifiedName objects as returned)
@@ -166,6 +168,13 @@ class DocBuilder:
             pool = [hk for c2 in self.elems if c2 != c for hk in self.elems[c2]]
             if pool:
                 return self.w.recs[self.g.choice(pool)[0]]
+        if self.ids[c] and self.o.get("resplit") and self.g.chance(self.o["resplit"]):
+            # a name already in use, cut differently: the same URI as another namespace + local part (ex:data_e1 / dat:e1)
+            q = self.g.choice(self.ids[c])
+            lp = q.localpart
+            if len(lp) >= 2 and isinstance(q.namespace.uri, str):
+                k_ = self.g.rng.randrange(1, len(lp))
+                return self.w.qname("al%d" % k_, q.namespace.uri + lp[:k_], lp[k_:])
         if elems and self.g.chance(0.5):
             h, _k = self.g.choice(elems)
             return self.w.recs[h]
@@ -245,6 +254,11 @@ class DocBuilder:
                     if g.chance(0.4):
                         # a second subtype of the same base class on the same record (only one can name the XML element)
                         out.append((name, PROV[g.choice(fam)]))
+                elif self.o.get("builtin_names") and g.chance(self.o["builtin_names"]):
+                    # a *value* that is a name of one of the built-in namespaces (xsd:decimal as the value of ex:datatype, a
+                    # prov:type naming an XML Schema type): a qualified name like any other, not a datatype
+                    v = QualifiedName(Namespace("xsd", "http://www.w3.org/2001/XMLSchema#"),
+                                      g.choice(["decimal", "string", "dateTime", "complexType", "QName", "anyURI"]))
                 else:
                     v = g.value(self.scope_namespaces(c), self.o["value_kinds"])
                 out.append((name, v))
@@ -277,6 +291,13 @@ class DocBuilder:
             else:
                 if g.chance(self.o["malformed"]):
                     args.append(g.choice(["nope:x", 5, ""]))
+                elif l in ("generation", "usage") and g.chance(0.5):
+                    # a relation that refers to another relation: the identified generation / usage record itself as the argument
+                    # (a record object stands for its identifier, whatever its class)
+                    want = "Generation" if l == "generation" else "Usage"
+                    pool = [self.w.recs[h_] for h_ in self.recs.get(c, []) if self.w.recs[h_].get_type().localpart == want
+                            and self.w.recs[h_].identifier is not None]
+                    args.append(g.choice(pool) if pool else self.ref(c))
                 else:
                     args.append(self.ref(c))
         return args
